@@ -282,6 +282,8 @@ pub struct BuildSpec {
     /// values given to a setter earlier and overwritten by a later call of the same setter: the real
     /// builder is driven through the same sequence of calls (the earlier value must leave no trace)
     pub overwritten: Vec<Overwritten>,
+    /// the builder is started with `PackageBuilder::default()` instead of `new(..)` (the five required texts are then empty)
+    pub from_default: bool,
 }
 
 #[derive(Clone, Debug)]
@@ -320,6 +322,7 @@ impl BuildSpec {
             large_files: false,
             chrono_offset: None,
             overwritten: vec![],
+            from_default: false,
         }
     }
 
@@ -343,6 +346,7 @@ impl BuildSpec {
             "sign": self.sign.map(|k| k.name()),
             "large_files": self.large_files,
             "timestamps_as_chrono_with_offset": self.chrono_offset,
+            "started_from_Default": self.from_default,
             "earlier_setter_calls_overwritten_later": self.overwritten.iter().map(|o| format!("{:?}", o)).collect::<Vec<_>>(),
         })
     }
@@ -361,7 +365,7 @@ impl BuildSpec {
 
     /// The configured builder, just before `build` / `build_and_sign`.
     pub fn builder(&self, env: &Env) -> Result<PackageBuilder, rpm::Error> {
-        let mut b = PackageBuilder::new(&self.name, &self.version, &self.license, &self.arch, &self.summary);
+        let mut b = if self.from_default { PackageBuilder::default() } else { PackageBuilder::new(&self.name, &self.version, &self.license, &self.arch, &self.summary) };
         // earlier calls of setters that are called again below
         for o in &self.overwritten {
             b = match o {
